@@ -73,6 +73,7 @@ Proof. intros s w H. inversion H. reflexivity. Qed.
 Definition same_shape (v w : pval) : Prop :=
   match v, w with
   | PNone, PNone | PBool _, PBool _ | PInt _, PInt _ | PFloat _, PFloat _ | PStr _, PStr _ | PTime _, PTime _
+  | PStamp _ _ _ _, PStamp _ _ _ _
   | PList _, PList _ | PDict _, PDict _ => True
   | _, _ => False
   end.
@@ -94,7 +95,7 @@ Proof.
     destruct hv; try reflexivity. simpl. apply jp_refl.
   - reflexivity.
   - (* a dictionary in another order *)
-    inversion N as [| | | | | | |m1 N1 N2]; subst.
+    inversion N as [| | | | | | | |m1 N1 N2]; subst.
     pose proof (choose_F2 pperm prefs hp m0 m' F2) as C1.
     assert (K : NoDup (map fst m')) by (rewrite <- (F2kv_keys pperm m0 m' F2); exact N1).
     assert (C2 : choose_one_hash prefs hp m' = choose_one_hash prefs hp m'').
